@@ -28,6 +28,9 @@ pub trait Source {
 }
 
 pub struct ArenaSlot {
+    /// colour / flags of every object in the last snapshot: id -> (colour byte, needs_trace, live)
+    pub colors: HashMap<u32, (u8, bool, bool)>,
+    pub phase: u8,
     pub arena: Option<TestArena>,
     pub metrics: Option<Metrics>,
     pub addr2id: HashMap<usize, u32>,
@@ -300,7 +303,17 @@ impl World {
             alloc_violations: alloc::take_violations(),
         };
         if let Some(s) = snap {
-            self.cover.record(op, &obs, s);
+            let before = std::mem::take(&mut self.arenas[ai].colors);
+            self.cover.record(op, &obs, s, &before, self.arenas[ai].phase);
+            let slot = &mut self.arenas[ai];
+            slot.colors = before;
+            slot.colors.clear();
+            slot.phase = s.phase;
+            for o in &s.all {
+                if let Some(id) = slot.addr2id.get(&o.addr) {
+                    slot.colors.insert(*id, (o.color, o.needs_trace, o.live));
+                }
+            }
         }
         let mut out = vec![];
         self.arenas[ai].shadow.observe(op, &obs, &mut out);
@@ -334,7 +347,7 @@ impl World {
             // The protocol's `new` = `Arena::new` + `set_pacing(P0)` with the dyadic pacing P0, so
             // that every amount the run computes is exact in f64 (DESIGN §4, numerics).
             metrics.set_pacing(pacing_of(&P0));
-            self.arenas.push(ArenaSlot { arena: Some(arena), metrics: Some(metrics), addr2id: HashMap::new(), shadow: Shadow::new(n) });
+            self.arenas.push(ArenaSlot { colors: HashMap::new(), phase: b'Z', arena: Some(arena), metrics: Some(metrics), addr2id: HashMap::new(), shadow: Shadow::new(n) });
             let snap = self.arenas[ai].arena.as_ref().unwrap().verif_snapshot();
             let ph = cphase_of_snapshot(&snap);
             self.finish_op(ai, &op, "ok".into(), Pre { phase: CPhase::Sleeping, debt: 0.0, total: 0 }, Some(&snap), ph, String::new());
